@@ -112,6 +112,17 @@ Next == \/ /\ Len(hist) < MaxCalls
 
 Spec == Init /\ [][Next]_vars
 
+\* C01, second half ("two continuations of the same partial query are independent of each other and of the order in which they
+\* were made"): what a call returns is a function of the receiver's own lineage - the labels on the path from the seed - and of
+\* nothing a sibling did.  Marks are object numbers; LabOf turns them into the label of the call that wrote them.
+RECURSIVE Lin(_)
+Lin(i) == IF i = 1 THEN <<>> ELSE LET st == hist[i - 1] IN IF st.l \in Dups THEN Lin(st.r) ELSE Append(Lin(st.r), st.l)
+LabOf(n) == IF n - 1 \in DOMAIN hist THEN hist[n - 1].l ELSE "?"
+LabView(i) == [a \in A |-> << [k \in DOMAIN cells[objs[i][a]] |-> LabOf(cells[objs[i][a]][k])], [k \in DOMAIN elems[a] |-> LabOf(elems[a][k])] >>]
+\* (judged at creation time: snap holds the view an object had when it was made)
+SnapLab(i) == [a \in A |-> << [k \in DOMAIN snap[i][a][1] |-> LabOf(snap[i][a][1][k])], [k \in DOMAIN snap[i][a][2] |-> LabOf(snap[i][a][2][k])] >>]
+Functional == \A i, j \in 1..Len(objs) : Lin(i) = Lin(j) => SnapLab(i) = SnapLab(j)
+
 \* C01: no earlier object is altered by a call
 Changed == {<<i, a>> \in (1..Len(objs)) \X A : <<cells[objs[i][a]], elems[a]>> # snap[i][a]}
 Frozen == Changed = {}
